@@ -200,6 +200,8 @@ class StoreBackendMixin(object):
             if verbose > 10:
                 print("Persisting in %s" % item_path)
 
+            pickling_errors = []
+
             def write_func(to_write, dest_filename):
                 with self._open_item(dest_filename, "wb") as f:
                     try:
@@ -212,8 +214,17 @@ class StoreBackendMixin(object):
                             f"exception. Exception: {e}.",
                             FutureWarning,
                         )
+                        pickling_errors.append(e)
 
-            self._concurrency_safe_write(item, filename, write_func)
+            temporary_filename = concurrency_safe_write(item, filename, write_func)
+            if pickling_errors:
+                # Do not publish the partially written file as a result.
+                try:
+                    os.unlink(temporary_filename)
+                except OSError:
+                    pass
+            else:
+                self._move_item(temporary_filename, filename)
         except Exception as e:  # noqa: E722
             warnings.warn(
                 "Unable to cache to disk. Possibly a race condition in the "
